@@ -48,6 +48,16 @@ using vh::Toks; using vh::Out;
 
 // ----------------------------------------------------------------------------- helpers
 
+// log-sum-exp computed here, independently of utils::log_sum_exp (which is code under test)
+static double twin_lse(const VectorXd& x) {
+    double m = -std::numeric_limits<double>::infinity();
+    for (long i = 0; i < x.size(); ++i) if (x(i) > m) m = x(i);
+    if (!std::isfinite(m)) return m;
+    double s = 0.0;
+    for (long i = 0; i < x.size(); ++i) s += std::exp(x(i) - m);
+    return m + std::log(s);
+}
+
 static double twin_u1(std::mt19937_64& g, long n) {
     std::uniform_real_distribution<double> d(0.0, 1.0 / n);
     return d(g);
@@ -195,7 +205,7 @@ static std::string rwp_call(Resampling& r, std::mt19937_64& twin, double ratio, 
     if (m < 1 || k < 0) { o.s("ratio-out-of-range"); return o.str(); }
     VectorXd kept(m);
     for (long i = 0; i < m; ++i) kept(i) = lw[k + i];
-    double lse = utils::log_sum_exp(kept);
+    double lse = twin_lse(kept);
     double u1 = twin_u1(twin, m);
     const long call0 = g_init_calls;                    // the draws of THIS call come from the call0-th initialisation
     r.resample(cor, res, par);
